@@ -480,6 +480,27 @@ def env_checks(ck):
                 ck.violation(f"env var={v} TARGET={target_set}", {"case": "env", "why": f"{v} changes the bindings but is reported {lines.count(v)} times through rerun-if-env-changed (lines: {lines})"})
             if len(lines) != len(set(lines)):
                 ck.violation(f"env duplicate lines var={v} TARGET={target_set}", {"case": "env", "why": f"duplicate rerun-if-env-changed lines: {lines}"})
+    # the notifications belong to EACH generation: a later generation in the same process (a build script that generates several
+    # modules), with callbacks of its own, is told about every variable and every file again
+    env = dict(common.ENV, BINDGEN_EXTRA_CLANG_ARGS="-DWIDE=1", TARGET=triple)
+    for first_cb in (False, True):
+        for thr in (False, True):
+            job = {"id": f"h{int(first_cb)}{int(thr)}", "mode": "history", "fresh": True, "thread_per_generation": thr, "timeout": 60,
+                   "jobs": [dict({"args": [h]}, **({"callbacks": {"log": True}} if first_cb else {})), {"args": [h], "callbacks": {"log": True}}, {"args": [h], "callbacks": {"log": True}}]}
+            r = common.run_jobs([job], wd, timeout=60, env=env)[job["id"]]
+            ck.count()
+            ck.nontriv(("env-history", first_cb, thr))
+            if r["status"] != "ok":
+                ck.violation(f"env history first-callbacks={first_cb} threads={thr} {r['status']}", {"case": "env", "why": str(r)[:200]})
+                continue
+            for k, o in enumerate(r["outs"][1:], start=1):
+                log = o.get("cb_log") or []
+                envs = [l.split(" ", 1)[1] for l in log if l.startswith("read_env_var ")]
+                files = [l for l in log if l.startswith(("header_file ", "include_file "))]
+                if "BINDGEN_EXTRA_CLANG_ARGS" not in envs or len(files) < 2 or "counter_t = ::std::os::raw::c_longlong" not in (o.get("text") or ""):
+                    ck.violation(f"env history first-callbacks={first_cb} threads={thr} generation={k}", {"case": "env",
+                                 "why": f"generation #{k} depends on BINDGEN_EXTRA_CLANG_ARGS (counter_t is long long: {'counter_t = ::std::os::raw::c_longlong' in (o.get('text') or '')}) "
+                                        f"but its callbacks were told about env vars {envs} and files {files}"})
 
 
 def replay(ck, case, detail):
